@@ -47,6 +47,14 @@ finally:
 # our checks against the change: on /repo itself, undone straight afterwards (default), or - with SEEDCHECK_SCRATCH=1, for
 # the time /repo is in use by a long run - on a scratch worktree handed to the driver through VERIF_REPO
 scratch = os.environ.get("SEEDCHECK_SCRATCH") == "1"
+if os.environ.get("SEEDCHECK_CONFIRM_ONLY") == "1":
+    old = json.load(open(os.path.join(out, "meta.json")))
+    for k in ("applies_and_builds", "baseline_suite_passes_with_change", "demo_fails_with_change", "demo_passes_without_change"):
+        old[k] = meta.get(k)
+    old["ran"] = meta["ran"]
+    json.dump(old, open(os.path.join(out, "meta.json"), "w"), indent=1)
+    print(json.dumps({k: v for k, v in old.items() if k != "ran"}, indent=1))
+    sys.exit(0)
 target = "/repo"
 if scratch:
     target = "/var/tmp/seedrepo-" + name
@@ -58,6 +66,7 @@ else:
     if st:
         sys.exit("/repo is not clean: " + st)
 meta["checks"] = {}
+replays_before = set(os.listdir(os.path.join(V, "replays")))
 meta["checks_ran_against"] = "scratch worktree (VERIF_REPO)" if scratch else "/repo with the patch applied"
 try:
     subprocess.run(["git", "-C", target, "apply", patch], check=True)
@@ -82,6 +91,10 @@ try:
                 if not tracked:
                     os.remove(m.group(1))
 finally:
+    # replay files written by the checks while the change was in place are not findings about /repo
+    for fn in set(os.listdir(os.path.join(V, "replays"))) - replays_before:
+        if re.match(r"C\d\d-[0-9a-f]{12}\.json$", fn):
+            os.remove(os.path.join(V, "replays", fn))
     if scratch:
         subprocess.run(["git", "-C", "/repo", "worktree", "remove", "--force", target])
         shutil.rmtree(target, ignore_errors=True)
